@@ -350,4 +350,26 @@ CHECKS = {
             job("driver", "c06", ["TestC06Driver"], 120, 1500, 1, 3),
         ],
     },
+    "C09": {
+        "level": "fault_enumeration",
+        "ctools": [
+            {"src": "crashshim.c", "out": "crashshim.so", "args": ["-shared", "-fPIC", "-O1"], "libs": ["-ldl"]},
+            {"src": "crashwriter.c", "out": "crashwriter", "args": ["-O1"], "libs": ["/usr/lib/x86_64-linux-gnu/libsqlite3.so.0"], "optional": True},
+        ],
+        "manifest": {
+            "technique": "crash-point enumeration inside the property-based harness: rapid generates base databases and write transactions; a real SQLite writer process (small cache, so dirty pages spill before commit; journal modes DELETE/TRUNCATE/PERSIST) runs under an LD_PRELOAD shim that numbers its pwrite/write/ftruncate/fsync/fdatasync/unlink calls and is killed before its k-th one for every k, plus a half-written variant of every write; the files left behind are read by sqlittle and, on a copy, by real SQLite after its own recovery",
+            "level_text": "Exhaustive in k (every system-call boundary of the writer on the database and its journal, plus torn halves of every write) per generated (base, transaction, journal mode, page size); oracle: sqlittle errors, or returns exactly SQLite's post-recovery content; and when no recovery is pending (journal absent, empty or zero-headered) sqlittle must read without error. Transactions are sampled.",
+            "level_note": "Crash points are system-call boundaries of the stock unix VFS with one sector size (512 here); reordering of unsynced writes is not modelled. SQLite 3.40.1 performs the reference recovery.",
+        },
+        "rule": ("transaction: 1-4 statements from a pool of UPDATE/DELETE/INSERT..SELECT/CREATE/DROP/ALTER on a database of 30-150 rows (rowid table + index + WITHOUT ROWID table), cache_size 3, synchronous FULL; "
+                 "one evaluation = one (transaction, k, torn) crash. Non-trivial = killed after the first write to the database file and not after the last journal operation, with a journal carrying the magic left behind "
+                 "(database pages already overwritten, recovery pending). Distinct = fingerprint of (spec, k, torn)."),
+        "assumptions": ["system libsqlite3 (3.40.1) is writer and recovery reference", "LD_PRELOAD interposition sees every file operation of the writer (checked: the uninterrupted run's log is non-empty and the kill happens at each k)"],
+        "min_nontrivial": {"quick": 60, "thorough": 2000},
+        "required_classes": ["crash:DELETE", "crash:TRUNCATE", "crash:PERSIST", "journal-left:magic", "journal-left:absent", "sqlittle-read", "sqlittle-refused"],
+        "timeout": {"quick": 400, "thorough": 2400},
+        "jobs": [
+            job("crash", "c09", ["TestC09Crash"], 4, 60, 4, 12),
+        ],
+    },
 }
